@@ -1,8 +1,295 @@
-//! L3p placeholder (compile check of the projection)
+//! L3p harnesses on session/operations.rs (schedule-free projection): publish, subscribe,
+//! unsubscribe, disconnect against the abstract outbound with `flush_outbound` replaced by its
+//! contract A2 (the only awaiting callee of the QoS>0 operations, so the only place where their
+//! future can be dropped).
+#![allow(static_mut_refs)]
 use super::*;
+use crate::mqtt_client::outbound::verif_x_outbound as g;
+use crate::mqtt_client::outbound::Outbound;
+use crate::mqtt_client::session::drive::verif_p_drive::{self as pd, SymIoP};
+use crate::mqtt_client::{ConnectEvent, OpKind};
+use crate::properties::verif_x_properties as xp;
+use crate::{Buffers, ConfigBuilder, PeerError, ReasonCode, Session};
 
-// @harness props=DEV tier=dev layer=L3p
-#[kani::proof]
-fn dev_projection_compiles() {
-    assert!(1 + 1 == 2);
+macro_rules! ops_harness {
+    ($name:ident, $unwind:literal, $body:block) => {
+        #[kani::proof]
+        #[kani::unwind($unwind)]
+        #[kani::stub(embassy_time::Instant::now, crate::verif_common::stub_now)]
+        #[kani::stub(Outbound::retained_full, g::st_retained_full)]
+        #[kani::stub(Outbound::can_retain, g::st_can_retain)]
+        #[kani::stub(Outbound::scratch_len, g::st_scratch_len)]
+        #[kani::stub(Outbound::retain_packet, g::st_retain_packet)]
+        #[kani::stub(Outbound::arm_replay, g::st_arm_replay)]
+        #[kani::stub(Outbound::encode_publish, Outbound::kst_encode_publish)]
+        #[kani::stub(Outbound::encode_packet, Outbound::kst_encode_packet)]
+        #[kani::stub(Properties::valid_for, Properties::kst_valid_for)]
+        #[kani::stub(Connection::flush_outbound, Connection::kst_flush_outbound)]
+        #[kani::stub(Outbound::next_step, g::st_next_step)]
+        #[kani::stub(Connection::perform_outbound_step, Connection::kst_perform_outbound_step)]
+        fn $name() $body
+    };
 }
+
+fn any_qos12() -> QoS {
+    if kani::any() {
+        QoS::AtLeastOnce
+    } else {
+        QoS::ExactlyOnce
+    }
+}
+
+fn any_max_qos() -> Option<QoS> {
+    match kani::any::<u8>() % 4 {
+        0 => None,
+        1 => Some(QoS::AtMostOnce),
+        2 => Some(QoS::AtLeastOnce),
+        _ => Some(QoS::ExactlyOnce),
+    }
+}
+
+/// Every `encode` / `retain` in the log is preceded by a successful drain with no outbound
+/// activity in between (C01-O3: an operation's own packet never starts inside another one).
+fn drained_before_encode() -> bool {
+    let e = g::first(g::E_ENCODE);
+    if e == usize::MAX {
+        return true;
+    }
+    let d = g::last_before(g::E_DRAIN_OK, e);
+    d != usize::MAX && g::last_before(g::E_DRAIN_ERR, e) == usize::MAX
+}
+
+// @harness props=C02,C06,C13,C14,C18,C19,C01,C07,C11,C03 tier=quick layer=L3p unwind=14
+// @harness funcs="Connection::publish (QoS 1/2 path), require_retained_slot, Session::can_publish, RuntimeState::require_packet_size, SessionData::next_packet_id (projection)"
+// @harness sym="requested QoS (1/2), broker Maximum QoS, downgrade flag, send quota, Maximum Packet Size, encoded length, validity of the properties, arena answers (full / can retain / encode fails), live flag, outcome of both drains (A2), in-progress entry at entry" bounds="one publish call; abstract outbound with <= 1 entry in progress at entry"
+// @harness assumes="A2 (flush_outbound contract: c01_flush_outbound_contract), K6/K7 (retain appends, encode behind prefix), Properties::valid_for answer arbitrary (c19_*)"
+ops_harness!(c02_publish_qos12_enqueue, 14, {
+    pd::reset_all();
+    let mut rx = [0u8; 8];
+    let mut tx = [0u8; 24];
+    let mut cfg = ConfigBuilder::new(Buffers::new(&mut rx, &mut tx));
+    let downgrade: bool = kani::any();
+    if downgrade {
+        cfg = cfg.autodowngrade_qos();
+    }
+    let mut session = Session::new(cfg);
+    g::any_current(0, 3);
+    session.runtime.send_quota = kani::any();
+    session.runtime.max_send_quota = 8;
+    kani::assume(session.runtime.send_quota <= 8);
+    session.runtime.max_qos = any_max_qos();
+    // a downgrade to QoS 0 takes the direct-write path: c19_publish_q0_downgrade
+    kani::assume(!(downgrade && session.runtime.max_qos == Some(QoS::AtMostOnce)));
+    session.runtime.maximum_packet_size = if kani::any() { Some(kani::any()) } else { None };
+    unsafe {
+        g::FULL = kani::any();
+        g::CAN_RETAIN = kani::any();
+        g::ENC_FAIL = kani::any();
+        g::ENC_OFF = 5;
+        g::ENC_LEN = kani::any();
+        kani::assume(g::ENC_LEN >= 7 && g::ENC_LEN <= 12);
+        xp::VALID = kani::any();
+        pd::CHECK_ENQ = true;
+        pd::ENQ_IS_PUBLISH = true;
+        pd::Q0 = session.runtime.send_quota;
+    }
+    let q0 = session.runtime.send_quota;
+    let gen0 = session.data.generation();
+    let live: bool = kani::any();
+    let qos = any_qos12();
+    let mut conn = Connection { session: &mut session, io: SymIoP, event: ConnectEvent::Connected, live };
+    let payload = [1u8, 2];
+    let res = conn.publish(Publication::bytes("a", &payload).qos(qos));
+    let quota = conn.session.runtime.send_quota;
+    unsafe {
+        let used_qos = match conn.session.runtime.max_qos {
+            Some(m) if downgrade && qos > m => m,
+            _ => qos,
+        };
+        // bookkeeping is consistent on EVERY exit, error or not
+        assert!(q0 - quota == g::N_RETAIN as u16 && g::N_RETAIN <= 1, "C13/C02: on return the message is either fully enqueued (retained + one quota slot) or absent");
+        assert!(drained_before_encode(), "C01/O3: PUBLISH was encoded without draining the packet in progress first");
+        if g::N_RETAIN == 1 {
+            assert!(g::first(g::E_ENCODE) < g::first(g::E_RETAIN), "C02: retained before it was encoded");
+            assert!(q0 >= 1, "C06: a publish was accepted with no Receive Maximum slot left");
+            assert!(g::LAST_RETAIN.1 == g::ENC_OFF && g::LAST_RETAIN.2 == g::ENC_LEN, "C17: the retained range is the encoded range");
+            assert!(conn.session.runtime.maximum_packet_size.map_or(true, |m| g::ENC_LEN <= m as usize), "C14: a PUBLISH longer than the broker's Maximum Packet Size was retained for sending");
+            assert!(g::LAST_RETAIN.0 != 0, "C07: packet identifier 0");
+            assert!(xp::VALID, "C19: a publish with invalid properties was enqueued");
+            assert!(live || false, "C11: a dead handle enqueued a message");
+            assert!(used_qos != QoS::AtMostOnce);
+        }
+        if !live {
+            assert!(matches!(res, Err(PubError::Session(Error::Disconnected))), "C11: publish on a dead handle must fail with Disconnected");
+            assert!(g::LOG_N == 0 && g::IO_WRITES == 0 && pd::N_DRAIN == 0, "C11/C19: a dead handle did something");
+        }
+        match &res {
+            Ok(Some(op)) => {
+                assert!(g::N_RETAIN == 1, "C02: an operation handle was returned for a message that is not retained");
+                assert!(*op == Op::new(if used_qos == QoS::ExactlyOnce { OpKind::PublishExactlyOnce } else { OpKind::PublishAtLeastOnce }, g::LAST_RETAIN.0, gen0), "C18/C19: the handle carries the retained id, the current generation and the QoS actually used");
+                assert!(pd::N_DRAIN == 2, "C02: publish drains before and after enqueueing");
+            }
+            Ok(None) => {
+                assert!(used_qos == QoS::AtMostOnce && downgrade, "C19: QoS 1/2 publish returned no handle without a downgrade to QoS 0");
+                assert!(g::N_RETAIN == 0);
+            }
+            Err(PubError::Session(Error::InvalidRequest)) => {
+                assert!(!xp::VALID, "C19: valid properties refused");
+                assert!(g::N_ENCODE == 0 && g::N_RETAIN == 0 && quota == q0, "C19: a refused publish left a trace");
+            }
+            Err(PubError::Session(Error::NotReady)) => {
+                assert!(g::N_ENCODE == 0 && g::N_RETAIN == 0 && quota == q0, "C06: a publish refused for lack of quota left something behind");
+                assert!(used_qos == QoS::AtMostOnce || q0 == 0 || !g::CAN_RETAIN || g::FULL, "C06: NotReady although quota and space were available");
+            }
+            Err(PubError::Session(Error::Resource(ResourceError::PacketTooLarge))) => {
+                // either the new packet is too large (nothing retained) or a drain hit an oversize replay
+                assert!(g::N_RETAIN == 0 || pd::N_DRAIN == 2, "C14: oversize publish was retained");
+            }
+            Err(PubError::Session(Error::Resource(ResourceError::InflightExhausted))) => assert!(g::FULL && g::N_RETAIN == 0 && g::N_ENCODE == 0, "C19: InflightExhausted without a full list"),
+            Err(PubError::Session(Error::Transport(_))) => assert!(!conn.live, "C11: transport error without latch"),
+            Err(_) => {}
+        }
+        if xp::VALID && live && used_qos != QoS::AtMostOnce && q0 >= 1 && g::CAN_RETAIN && !g::FULL && !g::ENC_FAIL && pd::N_DRAIN >= 1 && g::first(g::E_DRAIN_ERR) == usize::MAX {
+            assert!(
+                g::N_RETAIN == 1 || conn.session.runtime.maximum_packet_size.map_or(false, |m| g::ENC_LEN > m as usize),
+                "C19: a valid publish within quota, space and size limits was not accepted"
+            );
+        }
+    }
+    kani::cover!(matches!(res, Ok(Some(_))));
+    kani::cover!(matches!(res, Err(PubError::Session(Error::NotReady))));
+    kani::cover!(matches!(res, Err(PubError::Session(Error::Resource(ResourceError::PacketTooLarge)))));
+    kani::cover!(res.is_err() && unsafe { g::N_RETAIN } == 1, "failed (second drain) after the message was enqueued");
+});
+
+fn sub_unsub_body(unsub: bool) {
+    pd::reset_all();
+    let mut rx = [0u8; 8];
+    let mut tx = [0u8; 24];
+    let mut session = Session::new(ConfigBuilder::new(Buffers::new(&mut rx, &mut tx)));
+    g::any_current(0, 3);
+    session.runtime.send_quota = kani::any();
+    session.runtime.maximum_packet_size = if kani::any() { Some(kani::any()) } else { None };
+    unsafe {
+        g::FULL = kani::any();
+        g::ENC_FAIL = kani::any();
+        g::ENC_OFF = 5;
+        g::ENC_LEN = kani::any();
+        kani::assume(g::ENC_LEN >= 7 && g::ENC_LEN <= 12);
+        xp::VALID = kani::any();
+        pd::CHECK_ENQ = true;
+        pd::ENQ_IS_PUBLISH = false;
+        pd::Q0 = session.runtime.send_quota;
+    }
+    let q0 = session.runtime.send_quota;
+    let gen0 = session.data.generation();
+    let live: bool = kani::any();
+    let empty: bool = kani::any();
+    let mut conn = Connection { session: &mut session, io: SymIoP, event: ConnectEvent::Connected, live };
+    let filters = [TopicFilter::new("a")];
+    let names = ["a"];
+    let res = if unsub {
+        conn.unsubscribe(if empty { &names[..0] } else { &names[..] }, &[])
+    } else {
+        conn.subscribe(if empty { &filters[..0] } else { &filters[..] }, &[])
+    };
+    unsafe {
+        assert!(conn.session.runtime.send_quota == q0, "C06: SUBSCRIBE/UNSUBSCRIBE changed the publish quota");
+        assert!(drained_before_encode(), "C01/O3: SUBSCRIBE/UNSUBSCRIBE was encoded without draining the packet in progress first");
+        assert!(g::N_RETAIN <= 1);
+        if g::N_RETAIN == 1 {
+            assert!(live && !empty && xp::VALID, "C19: an invalid or dead request was enqueued");
+            assert!(conn.session.runtime.maximum_packet_size.map_or(true, |m| g::ENC_LEN <= m as usize), "C14: an oversize SUBSCRIBE/UNSUBSCRIBE was retained for sending");
+            assert!(g::LAST_RETAIN.0 != 0 && g::LAST_RETAIN.1 == g::ENC_OFF && g::LAST_RETAIN.2 == g::ENC_LEN);
+        }
+        if !live {
+            assert!(matches!(res, Err(Error::Disconnected)) && g::LOG_N == 0 && pd::N_DRAIN == 0, "C11: a dead handle did something");
+        } else if empty || !xp::VALID {
+            assert!(matches!(res, Err(Error::InvalidRequest)), "C19: empty topic list / invalid properties must be InvalidRequest");
+            assert!(g::LOG_N == 0 && pd::N_DRAIN == 0 && g::N_RETAIN == 0, "C19: a refused request left a trace (not even a drain is needed)");
+        }
+        match &res {
+            Ok(op) => {
+                assert!(g::N_RETAIN == 1 && pd::N_DRAIN == 2, "C18: handle without a retained packet");
+                assert!(*op == Op::new(if unsub { OpKind::Unsubscribe } else { OpKind::Subscribe }, g::LAST_RETAIN.0, gen0), "C18: the handle carries the retained id and the current generation");
+            }
+            Err(Error::Resource(ResourceError::InflightExhausted)) => assert!(g::FULL && g::N_ENCODE == 0 && g::N_RETAIN == 0, "C19: InflightExhausted before anything is encoded"),
+            Err(Error::Transport(_)) => assert!(!conn.live, "C11: transport error without latch"),
+            _ => {}
+        }
+    }
+    kani::cover!(res.is_ok());
+    kani::cover!(res.is_err() && unsafe { g::N_RETAIN } == 1);
+}
+
+// @harness props=C19,C14,C18,C01,C13,C11,C07,C06 tier=quick layer=L3p unwind=14
+// @harness funcs="Connection::subscribe (projection)"
+// @harness sym="empty/non-empty topic list, validity answer, Maximum Packet Size, encoded length, list full, encode failure, live, drain outcomes, in-progress entry at entry" bounds="one call"
+// @harness assumes="A2, K6/K7, valid_for answer arbitrary"
+ops_harness!(c19_subscribe_gates, 14, { sub_unsub_body(false) });
+
+// @harness props=C19,C14,C18,C01,C13,C11,C07 tier=quick layer=L3p unwind=14
+// @harness funcs="Connection::unsubscribe (projection)"
+// @harness sym="as c19_subscribe_gates" bounds="one call"
+// @harness assumes="A2, K6/K7, valid_for answer arbitrary"
+ops_harness!(c19_unsubscribe_gates, 14, { sub_unsub_body(true) });
+
+// @harness props=C01,C11,C14,C19,C13 tier=quick layer=L3p unwind=8
+// @harness funcs="Connection::disconnect_with, disconnect, write_all (projection), MqttSerializer::encode(Disconnect)"
+// @harness sym="live flag, Maximum Packet Size, reason form, validity answer, in-progress entry at entry, every write/flush outcome" bounds="DISCONNECT of 2 or 3 bytes"
+// @harness assumes="K1 (abstract outbound), A1 (step contract) for finishing a packet in progress"
+ops_harness!(c01_disconnect_latches, 8, {
+    pd::reset_all();
+    let mut rx = [0u8; 8];
+    let mut tx = [0u8; 16];
+    let mut session = Session::new(ConfigBuilder::new(Buffers::new(&mut rx, &mut tx)));
+    g::any_current(0, 3);
+    let in_progress = unsafe { g::KIND != g::K_NONE && (g::WRITTEN > 0 || g::FLUSH) };
+    session.runtime.maximum_packet_size = if kani::any() { Some(kani::any()) } else { None };
+    let live: bool = kani::any();
+    let with_reason: bool = kani::any();
+    let mut conn = Connection { session: &mut session, io: SymIoP, event: ConnectEvent::Connected, live };
+    let res = if with_reason { conn.disconnect_with(Disconnect::with_reason(ReasonCode::DisconnectWithWill)) } else { conn.disconnect() };
+    unsafe {
+        pd::LIVE_PTR = core::ptr::null();
+        if !live {
+            assert!(matches!(res, Ok(())) && g::IO_WRITES == 0 && g::IO_FLUSHES == 0 && g::LOG_N == 0, "C11: disconnect on a dead handle must be a silent Ok");
+        } else {
+            let len = if with_reason { 3usize } else { 2 };
+            let too_big = conn.session.runtime.maximum_packet_size.map_or(false, |m| len > m as usize);
+            if too_big {
+                assert!(matches!(res, Err(Error::Resource(ResourceError::PacketTooLarge))) && g::IO_WRITES == 0, "C14: an oversize DISCONNECT was written");
+            } else {
+                // finishing the packet in progress can fail without reaching the DISCONNECT write:
+                // a transport error latches; only then may the handle still... no: every path latches
+                assert!(!conn.live || (in_progress && matches!(res, Err(_)) && !matches!(res, Err(Error::Transport(_)))), "C11/C01: after disconnect() the handle must be dead (nothing follows a DISCONNECT)");
+                assert!(conn.live || g::N_ARM >= 1, "C12: disconnect arms replay for the next connection");
+                if res.is_ok() {
+                    assert!(g::IO_ACC_N >= len && g::IO_ACC[g::IO_ACC_N - len] == 0xE0 && g::IO_ACC[g::IO_ACC_N - len + 1] as usize == len - 2, "C09: DISCONNECT bytes are the last bytes written");
+                    assert!(g::IO_FLUSH_OK >= 1);
+                }
+                // the packet in progress (if any) was completed before the first DISCONNECT byte:
+                // asserted inside SymIoP::write for every direct write
+            }
+        }
+    }
+    kani::cover!(live && res.is_ok());
+    kani::cover!(live && res.is_err() && !conn.live);
+});
+
+// @harness props=C13,C01 tier=quick layer=L3p unwind=8
+// @harness funcs="Connection::disconnect_with, write_all (projection): which path carries the DISCONNECT bytes, and is the handle live at that moment"
+// @harness sym="reason form, every write/flush outcome" bounds="DISCONNECT of 2 or 3 bytes, nothing queued"
+// @harness assumes="A3: write_all records its progress nowhere (c13_write_all_contract); KNOWN FINDING F9 tagged"
+ops_harness!(c13_disconnect_direct_writer, 8, {
+    pd::reset_all();
+    let mut rx = [0u8; 8];
+    let mut tx = [0u8; 16];
+    let mut session = Session::new(ConfigBuilder::new(Buffers::new(&mut rx, &mut tx)));
+    let with_reason: bool = kani::any();
+    let mut conn = Connection { session: &mut session, io: SymIoP, event: ConnectEvent::Connected, live: true };
+    // SymIoP::write asserts: no multi-byte direct write while *LIVE_PTR (tag F9)
+    unsafe { pd::LIVE_PTR = core::ptr::addr_of!(conn.live) };
+    let _ = if with_reason { conn.disconnect_with(Disconnect::with_reason(ReasonCode::DisconnectWithWill)) } else { conn.disconnect() };
+    unsafe { pd::LIVE_PTR = core::ptr::null() };
+});
